@@ -21,14 +21,14 @@ TInit == Init /\ tid \in 1..Len(Traces) /\ l = 1 /\ rb = [w \in Writers |-> [how
 \* ----- contract mode: adopt what was observed -----
 TWriteC == /\ Ev.op = "write"
            /\ out' = [out EXCEPT ![Ev.w] = @ \o Ev.frames]
-           /\ hist' = [hist EXCEPT ![Ev.w] = Append(@, Ev.v)]
+           /\ hist' = [hist EXCEPT ![Ev.w] = Append(@, [v |-> Ev.v, ok |-> Ev.ok])]
            /\ UNCHANGED <<reg, hdr, rb>>
 TReadC  == /\ Ev.op = "read"
            /\ rb' = [rb EXCEPT ![Ev.w] = [how |-> Ev.how, trees |-> Ev.trees]]
            /\ UNCHANGED vars
 \* ----- design mode: the module's own action must explain the observation -----
 TWriteD == /\ Ev.op = "write"
-           /\ Write(Ev.w, Ev.v)
+           /\ IF Ev.ok THEN Write(Ev.w, Ev.v) ELSE FailWrite(Ev.w, Ev.v)
            /\ ProjSeq(SubSeq(out'[Ev.w], Len(out[Ev.w]) + 1, Len(out'[Ev.w]))) = ProjSeq(Ev.frames)
            /\ UNCHANGED rb
 TReadD  == /\ Ev.op = "read"
@@ -54,8 +54,8 @@ ObsDefBeforeUse == Mode = "contract" => \A w \in Writers : ObsReadOK(EmptyReg, o
 ObsHeaderFirst  == Mode = "contract" => HeaderFirst
 ObsRecPerWrite  == Mode = "contract" =>
                      \A w \in Writers : LET rf == SelectSeq(out[w], LAMBDA f : f.k = "REC") IN
-                        /\ Len(rf) = Len(hist[w])
-                        /\ \A i \in DOMAIN rf : rf[i].v = hist[w][i]
+                        /\ Len(rf) = Len(OkHist(w))
+                        /\ \A i \in DOMAIN rf : rf[i].v = OkHist(w)[i].v
 \* what the real reader returned: one record per record written, each carrying (recursively) the
 \* descriptor it was created with; iteration ends normally
 RECURSIVE DescTree(_)
@@ -63,7 +63,7 @@ DescTree(v) == [d |-> v.d, kids |-> [i \in DOMAIN v.kids |-> DescTree(v.kids[i])
 ObsReadBack == Mode = "contract" =>
                  \A w \in Writers : rb[w].how # "none" =>
                     /\ rb[w].how = "end"
-                    /\ rb[w].trees = [i \in DOMAIN hist[w] |-> DescTree(hist[w][i])]
+                    /\ rb[w].trees = [i \in DOMAIN OkHist(w) |-> DescTree(OkHist(w)[i].v)]
 ObsAllOK == ObsDefBeforeUse /\ ObsHeaderFirst /\ ObsRecPerWrite /\ ObsReadBack
 
 TNext == /\ l <= Len(Traces[tid])
